@@ -31,6 +31,10 @@ KF_C08_id(ev) == "none"
 (* the second abilint round is a fixpoint.                                                                                     *)
 KF_C03_void(ev) == ev.hasVoid /\ ev.sameLinesModuloIds /\ ev.h2 = ev.h3
 
+(* C13: same root cause as C05-same-size-change-in-union: the default mode filters the whole interface, the leaf mode reports *)
+(* the leaf type change.                                                                                                       *)
+KF_C13_union(ev) == ev.inUnion /\ (\E i \in 1..Len(ev.kinds) : ev.kinds[i] = "member-type") /\ ev.exitDefault = 0 /\ ev.exitLeaf = 4
+
 (* C04: FALSE unless listed *)
 KF_C04_unescaped(ev) == FALSE
 ====================================================================================================
